@@ -113,7 +113,9 @@ def _sample_env(ctx, pathcond, rng, tries=200):
 def _num(v, full):
     """numeric value (complex or None for NaN) of an exact element at env."""
     from .core import Sx
-    from .symnp import _NaN
+    from .symnp import _NaN, _Uninit
+    if isinstance(v, _Uninit):
+        return 'uninit'
     if isinstance(v, _NaN):
         return None
     if isinstance(v, Sx):
@@ -283,8 +285,8 @@ def _ser_vals(d):
     out = {}
     for k, v in d.items():
         out[k] = {'shape': v['shape'],
-                  're': [None if c is None else c.real for c in v['vals']],
-                  'im': [None if c is None else c.imag for c in v['vals']]}
+                  're': [c if (c is None or isinstance(c, str)) else c.real for c in v['vals']],
+                  'im': [c if (c is None or isinstance(c, str)) else c.imag for c in v['vals']]}
     return out
 
 
@@ -331,10 +333,12 @@ def _close(sym, conc):
     cim = conc.get('im') or [0.0] * len(cre)
     ref = 1e-6
     for a in list(sym['re']) + list(cre):
-        if a is not None:
+        if a is not None and not isinstance(a, str):
             ref = max(ref, abs(a))
     worst = 0.0
     for sr, si, cr, ci in zip(sym['re'], sym['im'], cre, cim):
+        if isinstance(sr, str):
+            continue     # never-written np.empty() content: the real value is arbitrary memory
         if (sr is None) != (cr is None):
             return False, 'NaN pattern'
         if sr is None:
